@@ -52,6 +52,8 @@ HeaderOK ==
   /\ Prefix # "" => /\ ToSet(Hdr.view) = ViewRepos
                     /\ \A y \in ViewRepos : PosOf(Hdr.view)[y] = ViewPos.r[y]
                     /\ ValidName(Prefix)
+                    \* nothing under the prefix is missing from the name table
+                    /\ \A x \in Repos : Under(x) => x \in Image
 ASSUME HeaderOK
 
 \* ------------------------------------------------------------------------
